@@ -204,7 +204,23 @@ class Gen:
         return [{"t": "puts(%s)" % self.expr(S, 1)}]
 
     def s_error(self):
-        r = self.i(0, 5)
+        r = self.i(0, 8)
+        if r >= 6:
+            # a diagnostic on a statement that also has a state effect: an existing variable reassigned from a rejected call
+            # (wrong count on a user method, misspelt builtin, wrong argument type); the variable is read again later
+            cands = [v for v, t in self.vars.items() if t in (I, S, AI, AS)]
+            if cands:
+                v = self.pick(cands)
+                if r == 6 and self.methods:
+                    name, npar, kws, _ = self.pick(self.methods)
+                    rhs = "%s(%s)" % (name, ", ".join(["1"] * (npar + 1)))
+                elif r == 7:
+                    rhs = "%s.lenght" % self.lit(self.pick([I, S, AI]))
+                else:
+                    rhs = "%s.upcase(%s)" % (self.lit(S), self.lit(I))
+                self.vars[v] = "?"
+                return [{"t": "%s = %s" % (v, rhs)}] + ([{"t": "dbtp %s" % v}] if self.want_dbtp else [])
+            r = self.i(0, 5)
         if r == 0:
             return [{"t": "%s + %s" % (self.lit(I), self.lit(S))}]
         if r == 1:
